@@ -122,7 +122,7 @@ namespace RecInt
     template <size_t K, typename T>
     inline __RECINT_IS_SIGNED(T, ruint<K>&) operator/=(ruint<K>& a, const T& b) {
         if (b < 0) {
-            div_q(a, a, -b);
+            div_q(a, a, __recint_mag(b));
             return (a = -a);
         } else return div_q(a, a, b);
     }
@@ -158,7 +158,7 @@ namespace RecInt
     inline __RECINT_IS_SIGNED(T, ruint<K>) operator/(const ruint<K>& b, const T& c) {
         ruint<K> a;
         if (c < 0) {
-            div_q(a, b, -c);
+            div_q(a, b, __recint_mag(c));
             return (a = -a);
         } else return div_q(a, b, c);
     }
